@@ -63,6 +63,13 @@ def cases(rng, tier, Case):
         for o in offs:
             e = o + rng.choice([0, 1, 1, 2, 5, 20])
             res.append(Case("pos %s %d %d" % (hx(b), o, e), "gen", {"src": hx(b), "s": o, "e": e}))
+    # very long lines: columns beyond 16 and 32 bit-friendly limits must not wrap (implementation-only; decided by the oracle)
+    for t in ["ab\n" + "x" * 66000 + "\nz", "é" * 70000, "q" * 65530 + "é𝄞" * 10 + "\r\nw"]:
+        b = t.encode()
+        for o in sorted(set([0, 3, 65530, 65535, 65536, 65537, 65538, 65540, 65547, 65600, 66001, len(b) - 1, len(b)] + [rng.randrange(len(b)) for _ in range(6)])):
+            while o < len(b) and 128 <= b[o] < 192:
+                o += 1
+            res.append(Case("pos %s %d %d" % (hx(b), o, o + 1), "long", {"src": hx(b), "s": o, "e": o + 1}, compare=False))
     return res
 
 
